@@ -1,3 +1,4 @@
+CONSTANT Cont <- StdWorld
 CONSTANT MaxLen = 4
 INIT Init
 NEXT Next
